@@ -12,7 +12,9 @@ import (
 	"context"
 	"errors"
 	"fmt"
+	"io"
 	"math/big"
+	"net"
 	"os"
 	"path/filepath"
 	"runtime"
@@ -71,10 +73,10 @@ func vfKey(i int) (*chiapos.PrivateKey, *chiapos.G1Element) {
 }
 
 type vfKeeper struct {
-	idx     int
-	spaceID string
-	nq      int // qualities per request
-	mu      sync.Mutex
+	idx          int
+	spaceID      string
+	nq           int // qualities per request
+	mu           sync.Mutex
 	qualityCalls map[pocutil.Hash]int
 	proofCalls   map[pocutil.Hash]int
 	signCalls    map[pocutil.Hash]int
@@ -94,10 +96,10 @@ func (k *vfKeeper) proofBytes(ch pocutil.Hash, index uint32) []byte {
 	return append(append([]byte("proof-of-"), ch[:6]...), byte(k.idx), byte(index))
 }
 
-func (k *vfKeeper) Start() error   { return nil }
-func (k *vfKeeper) Stop() error    { return nil }
-func (k *vfKeeper) Started() bool  { return true }
-func (k *vfKeeper) Type() string   { return "scripted" }
+func (k *vfKeeper) Start() error  { return nil }
+func (k *vfKeeper) Stop() error   { return nil }
+func (k *vfKeeper) Started() bool { return true }
+func (k *vfKeeper) Type() string  { return "scripted" }
 func (k *vfKeeper) WorkSpaceIDs(engine_v2.WorkSpaceStateFlags) ([]string, error) {
 	return []string{k.spaceID}, nil
 }
@@ -160,7 +162,9 @@ func (k *vfKeeper) SignHash(sid string, hash [32]byte) (*chiapos.G2Element, erro
 	sk, _ := vfKey(k.idx)
 	return chiapos.NewAugSchemeMPL().Sign(sk, hash[:])
 }
-func (k *vfKeeper) GetPrivateKey(string) (*chiapos.PrivateKey, error) { return nil, errors.New("unsupported") }
+func (k *vfKeeper) GetPrivateKey(string) (*chiapos.PrivateKey, error) {
+	return nil, errors.New("unsupported")
+}
 
 // ---- case -------------------------------------------------------------------------------------------------
 
@@ -170,9 +174,18 @@ type vfTask struct {
 	Read        int    `json:"read"`    // quality: reports the waiter reads before it leaves (0 = leaves at once, 99 = all that arrive within the window)
 	LateSub     bool   `json:"lateSub"` // a further local collector subscribes while the quality task is current
 	RemoveTwice bool   `json:"removeTwice"`
+	ViaRelay    bool   `json:"viaRelay,omitempty"` // targeted task: choose the relay when it is connected
+}
+
+// vfCut drops the relay's uplink (the TCP connection between relay and pool) at a generated moment.
+type vfCut struct {
+	After  int  `json:"after"`  // index of the task at which the link is cut
+	During bool `json:"during"` // while that task is current (right after it was added) instead of after it completed
+	Wait   bool `json:"wait"`   // then wait for the relay's own redial (PersistentRemoteSuperiorRetryInterval, 30 s) before going on
 }
 
 type vfC17Case struct {
+	Cut     *vfCut   `json:"cut,omitempty"`
 	NLocal  int      `json:"nlocal"`
 	Relay   bool     `json:"relay"`
 	NRemote int      `json:"nremote"`
@@ -195,7 +208,84 @@ func vfGenC17(t *rapid.T) vfC17Case {
 			Read: rapid.SampledFrom([]int{0, 0, 1, 3, 99}).Draw(t, "read"), LateSub: rapid.IntRange(0, 3).Draw(t, "late") == 0, RemoveTwice: rapid.Bool().Draw(t, "twice")})
 	}
 	c.Stop = rapid.Permutation([]string{"collectors", "relay", "pool"}).Draw(t, "stop")
+	if c.Relay && rapid.IntRange(0, 1).Draw(t, "cut") == 0 {
+		c.Cut = &vfCut{After: rapid.IntRange(0, len(c.Tasks)-1).Draw(t, "cutAfter"), During: rapid.Bool().Draw(t, "cutDuring"), Wait: rapid.IntRange(0, 3).Draw(t, "cutWait") == 0}
+		if c.Cut.Wait && c.Cut.After == len(c.Tasks)-1 {
+			c.Tasks = append(c.Tasks, vfTask{Kind: rapid.SampledFrom([]string{"quality", "proof", "sig"}).Draw(t, "postKind"), Target: 6, Read: 99})
+		}
+		for i := c.Cut.After + 1; i < len(c.Tasks); i++ {
+			c.Tasks[i].ViaRelay = rapid.Bool().Draw(t, "viaRelay")
+			if c.Tasks[i].Kind == "quality" && rapid.Bool().Draw(t, "readAll") {
+				c.Tasks[i].Read = 99
+			}
+		}
+	}
 	return c
+}
+
+// vfForwarder is a TCP forwarder between the relay and the pool, so that the harness can drop the link.
+type vfForwarder struct {
+	ln       net.Listener
+	target   string
+	mu       sync.Mutex
+	conns    []net.Conn
+	closed   bool
+	accepted int
+}
+
+func newVfForwarder(target string) (*vfForwarder, error) {
+	ln, err := net.Listen("tcp", "127.0.0.1:0")
+	if err != nil {
+		return nil, err
+	}
+	f := &vfForwarder{ln: ln, target: target}
+	go func() {
+		for {
+			c, err := ln.Accept()
+			if err != nil {
+				return
+			}
+			u, err := net.Dial("tcp", f.target)
+			if err != nil {
+				c.Close()
+				continue
+			}
+			f.mu.Lock()
+			if f.closed {
+				f.mu.Unlock()
+				c.Close()
+				u.Close()
+				return
+			}
+			f.conns = append(f.conns, c, u)
+			f.accepted++
+			f.mu.Unlock()
+			go func() { io.Copy(u, c); u.Close(); c.Close() }()
+			go func() { io.Copy(c, u); u.Close(); c.Close() }()
+		}
+	}()
+	return f, nil
+}
+
+func (f *vfForwarder) addr() string { return f.ln.Addr().String() }
+
+// cut closes every connection that is currently forwarded; the listener stays, so a redial succeeds
+func (f *vfForwarder) cut() {
+	f.mu.Lock()
+	cs := f.conns
+	f.conns = nil
+	f.mu.Unlock()
+	for _, c := range cs {
+		c.Close()
+	}
+}
+
+func (f *vfForwarder) close() {
+	f.mu.Lock()
+	f.closed = true
+	f.mu.Unlock()
+	f.ln.Close()
+	f.cut()
 }
 
 type vfLocal struct {
@@ -240,13 +330,20 @@ func vfC17Run(c vfC17Case, ctx *vlib.Ctx) *vlib.Failure {
 	var pool *CollectorPool
 	var poolCancel, relayCancel context.CancelFunc
 	var remotes []*vfLocal
+	var fwd *vfForwarder
 	if c.Relay {
 		var err error
 		pool, poolCancel, err = NewCollectorPool(bg, ls, CollectorPoolListenAddress("127.0.0.1:0"))
 		if err != nil {
 			return vlib.Failf("harness:pool", "%v", err)
 		}
-		prs, cancel, err := NewPersistentRemoteSuperior(bg, connection.DialAddress(pool.listener.Addr().String()))
+		fwd, err = newVfForwarder(pool.listener.Addr().String())
+		if err != nil {
+			poolCancel()
+			return vlib.Failf("harness:forwarder", "%v", err)
+		}
+		defer fwd.close()
+		prs, cancel, err := NewPersistentRemoteSuperior(bg, connection.DialAddress(fwd.addr()))
 		if err != nil {
 			poolCancel()
 			return vlib.Failf("harness:relay", "%v", err)
@@ -300,6 +397,64 @@ func vfC17Run(c vfC17Case, ctx *vlib.Ctx) *vlib.Failure {
 	}
 	nowSlot := uint64(time.Now().Unix()) / pocSlot
 	inFlightRemove, manyReports := false, false
+	relayUp := c.Relay
+	cutDone := false
+	var cutAt time.Time
+	// doCut drops the relay's uplink; with Wait it returns only when the relay has redialled on its own
+	doCut := func(where string) *vlib.Failure {
+		cutDone = true
+		cutAt = time.Now()
+		old := relayID
+		fwd.cut()
+		relayUp = false
+		ctx.Label("uplink-cut")
+		for i := 0; i < 5000; i++ { // the pool notices the loss
+			pool.l.RLock()
+			_, still := pool.collectors[old]
+			pool.l.RUnlock()
+			if !still {
+				break
+			}
+			time.Sleep(time.Millisecond)
+		}
+		if !c.Cut.Wait {
+			return nil
+		}
+		deadline := time.Now().Add(PersistentRemoteSuperiorRetryInterval + 25*time.Second)
+		for time.Now().Before(deadline) {
+			pool.l.RLock()
+			for id := range pool.collectors {
+				if id != old {
+					relayID = id
+					relayUp = true
+				}
+			}
+			pool.l.RUnlock()
+			if relayUp {
+				break
+			}
+			time.Sleep(20 * time.Millisecond)
+		}
+		if !relayUp {
+			fwd.mu.Lock()
+			acc, live := fwd.accepted, len(fwd.conns)
+			fwd.mu.Unlock()
+			f := vfBlockedFractal("harness:relay-did-not-redial", fmt.Sprintf("%s: no new relay connection at the pool %v after the cut (forwarder accepted %d connections, %d sockets live, pool has %d collectors)", where, PersistentRemoteSuperiorRetryInterval+25*time.Second, acc, live, pool.Count()))
+			return f
+		}
+		// the superior learns the new collector in the pool's goroutine
+		for i := 0; i < 3000; i++ {
+			ls.l.RLock()
+			_, ok := ls.collectors[relayID]
+			ls.l.RUnlock()
+			if ok {
+				break
+			}
+			time.Sleep(time.Millisecond)
+		}
+		ctx.Label("uplink-redialled")
+		return nil
+	}
 	var lateLocals []*vfLocal
 	for ti, task := range c.Tasks {
 		where := fmt.Sprintf("task#%d %s", ti, task.Kind)
@@ -316,16 +471,31 @@ func vfC17Run(c vfC17Case, ctx *vlib.Ctx) *vlib.Failure {
 		for _, l := range locals {
 			targets = append(targets, tgt{l.lc.ID(), []*vfKeeper{l.k}, false})
 		}
-		if c.Relay {
+		if c.Relay && relayUp {
 			var ks []*vfKeeper
 			for _, r := range remotes {
 				ks = append(ks, r.k)
 			}
 			targets = append(targets, tgt{relayID, ks, true})
 		}
+		cutNow := c.Cut != nil && !cutDone && c.Cut.After == ti
+		cutDuringThis := false
+		if len(targets) == 0 {
+			// only the relay was connected and its uplink is down: nobody to ask
+			ctx.Label("task-skipped-nobody-connected")
+			if cutNow {
+				if f := doCut(where); f != nil {
+					return f
+				}
+			}
+			continue
+		}
 		switch task.Kind {
 		case "proof", "sig":
 			tg := targets[task.Target%len(targets)]
+			if task.ViaRelay && targets[len(targets)-1].behind {
+				tg = targets[len(targets)-1]
+			}
 			kp := tg.keepers[task.Target%len(tg.keepers)]
 			var req protocol.Message
 			id := uuid.New()
@@ -333,6 +503,10 @@ func vfC17Run(c vfC17Case, ctx *vlib.Ctx) *vlib.Failure {
 				req = &protocol.RequestProof{TaskID: id, Height: 7, SpaceID: kp.spaceID, Challenge: ch, Index: uint32(ti)}
 			} else {
 				req = &protocol.RequestSignature{TaskID: id, Height: 7, SpaceID: kp.spaceID, Hash: ch}
+			}
+			if cutNow && c.Cut.During && !tg.behind {
+				// the link drops while a task for a directly connected collector is under way
+				go fwd.cut()
 			}
 			rch := ls.AddTask(bg, tg.id, req)
 			var msg *CollectorMsg
@@ -390,6 +564,12 @@ func vfC17Run(c vfC17Case, ctx *vlib.Ctx) *vlib.Failure {
 			id := uuid.New()
 			req := &protocol.RequestQualities{TaskID: id, Challenge: ch, ParentTarget: bigOne(), ParentSlot: nowSlot - 1, Height: 7}
 			rch := ls.AddTask(bg, uuid.Nil, req)
+			if cutNow && c.Cut.During {
+				cutDuringThis = true
+				if f := doCut(where); f != nil {
+					return f
+				}
+			}
 			if task.LateSub {
 				k := newVfKeeper(50+ti, c.NQ)
 				lc, cancel := NewLocalCollector(bg, ls, k)
@@ -398,6 +578,7 @@ func vfC17Run(c vfC17Case, ctx *vlib.Ctx) *vlib.Failure {
 			}
 			// the waiter reads task.Read reports within the first collector tick(s), then leaves
 			got := 0
+			var seenIDs []uuid.UUID
 			var first *CollectorMsg
 			deadline := time.After(2200 * time.Millisecond)
 		read:
@@ -410,6 +591,7 @@ func vfC17Run(c vfC17Case, ctx *vlib.Ctx) *vlib.Failure {
 					if first == nil {
 						first = m
 					}
+					seenIDs = append(seenIDs, m.CollectorID)
 					got++
 					if m.Msg.ID() != id {
 						return vlib.Failf("report-on-wrong-task-channel", "%s: report for %s", where, m.Msg.ID())
@@ -424,6 +606,14 @@ func vfC17Run(c vfC17Case, ctx *vlib.Ctx) *vlib.Failure {
 						if targets[i].id == m.CollectorID {
 							src = &targets[i]
 						}
+					}
+					if src == nil && c.Relay && relayUp && m.CollectorID == relayID {
+						// the relay redialled while this task was current: it is a new collector for the pool
+						var ks []*vfKeeper
+						for _, r := range remotes {
+							ks = append(ks, r.k)
+						}
+						src = &tgt{relayID, ks, true}
 					}
 					if src == nil {
 						late := false
@@ -452,6 +642,49 @@ func vfC17Run(c vfC17Case, ctx *vlib.Ctx) *vlib.Failure {
 					break read
 				}
 			}
+			if task.Read >= 99 && !cutDuringThis {
+				// a waiter that stays reads a report from every connected collector: the keepers' qualities are all
+				// above the target. The window is extended to the real waiter's 5 s before anything is concluded.
+				seen := map[uuid.UUID]bool{}
+				if first != nil {
+					seen[first.CollectorID] = true
+				}
+				missing := func() []uuid.UUID {
+					var out []uuid.UUID
+					for _, tg := range targets {
+						if !seen[tg.id] {
+							out = append(out, tg.id)
+						}
+					}
+					return out
+				}
+				for _, id := range seenIDs {
+					seen[id] = true
+				}
+				ext := time.After(5 * time.Second)
+			more:
+				for len(missing()) > 0 {
+					select {
+					case m, ok := <-rch:
+						if !ok {
+							break more
+						}
+						seen[m.CollectorID] = true
+						got++
+					case <-ext:
+						break more
+					}
+				}
+				if miss := missing(); len(miss) > 0 {
+					behind := false
+					for _, tg := range targets {
+						if tg.id == miss[0] {
+							behind = tg.behind
+						}
+					}
+					return vfBlockedFractal("broadcast-report-not-delivered", fmt.Sprintf("%s: the waiter stayed for more than 5 s but never got a report tagged with connected collector %s (relay=%v); reports seen from %d of %d collectors", where, miss[0], behind, len(seen), len(targets)))
+				}
+			}
 			if task.Read > 0 && got == 0 {
 				return vlib.Failf("broadcast-report-not-delivered", "%s: no quality report within 2.2 s although %d collectors hold qualities above the target", where, len(keepers))
 			}
@@ -478,6 +711,17 @@ func vfC17Run(c vfC17Case, ctx *vlib.Ctx) *vlib.Failure {
 				k.mu.Lock()
 				n := k.qualityCalls[ch]
 				k.mu.Unlock()
+				if k.idx >= 10 && k.idx < 50 && (cutDuringThis || !relayUp) {
+					// behind the relay whose uplink was down for (part of) this task: not asked, or asked once; when the
+					// relay came back while the task was still current it is handed the current task again
+					if !cutDuringThis && n > 0 {
+						fwd.mu.Lock()
+						acc, live := fwd.accepted, len(fwd.conns)
+						fwd.mu.Unlock()
+						return vlib.Failf("broadcast-reached-disconnected-collector", "%s: keeper %d behind the disconnected relay was asked %d times (cut %v ago, pool has %d collectors, forwarder accepted %d connections, %d sockets live)", where, k.idx, n, time.Since(cutAt), pool.Count(), acc, live)
+					}
+					continue
+				}
 				if n != 1 {
 					return vlib.Failf("broadcast-not-exactly-once", "%s: keeper %d was asked %d times", where, k.idx, n)
 				}
@@ -529,8 +773,14 @@ func vfC17Run(c vfC17Case, ctx *vlib.Ctx) *vlib.Failure {
 				}
 			}
 		}
+		if cutNow && !cutDone {
+			if f := doCut(where); f != nil {
+				return f
+			}
+		}
 	}
 	// ---- stops, in generated order
+	_ = cutDone
 	stopLocals := func() *vlib.Failure {
 		for _, l := range append(append(append([]*vfLocal{}, locals...), remotes...), lateLocals...) {
 			l := l
@@ -566,7 +816,7 @@ func vfC17Run(c vfC17Case, ctx *vlib.Ctx) *vlib.Failure {
 	if c.Relay {
 		ctx.Label("relay")
 	}
-	if (len(keepers) >= 2 && c.Relay) || inFlightRemove || manyReports {
+	if (len(keepers) >= 2 && c.Relay) || inFlightRemove || manyReports || c.Cut != nil {
 		ctx.NonTrivial()
 	}
 	return nil
@@ -586,7 +836,7 @@ func vfBlockedFractal(sig, msg string) *vlib.Failure {
 
 var vfC17Spec = vlib.Spec[vfC17Case]{
 	Prop: "C17", Name: "topology-histories", NoShrink: true,
-	Rule: "topologies of a LocalSuperior with 0-4 local collectors and optionally a CollectorPool (127.0.0.1:0) + PersistentRemoteSuperior relay with 1-3 collectors behind it, each collector on a scripted keeper; histories of 1-4 tasks (broadcast quality task with a waiter that reads 0/1/3/all reports and then leaves, targeted proof task, targeted signature task, late subscriber, RemoveTask once or twice), stops in generated order; oracles: targeted tasks are served exactly once by the target only, reports arrive on the channel of the task they name, tagged with the collector they came through, with the content the scripted keeper produced; every collector is asked exactly once per broadcast; RemoveTask and every stop return (verdict with goroutine stacks), a later task still completes; non-trivial = >=2 keepers with a relay, or a remove while reports are in flight, or >10 reports for one task; distinct = distinct case JSON",
+	Rule: "topologies of a LocalSuperior with 0-4 local collectors and optionally a CollectorPool (127.0.0.1:0) + PersistentRemoteSuperior relay with 1-3 collectors behind it, each collector on a scripted keeper; histories of 1-4 tasks (broadcast quality task with a waiter that reads 0/1/3/all reports and then leaves, targeted proof task, targeted signature task, late subscriber, RemoveTask once or twice), the relay's uplink (through a TCP forwarder) cut after or during a generated task, optionally followed by waiting for the relay's own redial (30 s) and further tasks through it, stops in generated order; oracles: targeted tasks are served exactly once by the target only, reports arrive on the channel of the task they name, tagged with the collector they came through, with the content the scripted keeper produced; every collector is asked exactly once per broadcast; RemoveTask and every stop return (verdict with goroutine stacks), a later task still completes; non-trivial = >=2 keepers with a relay, or a remove while reports are in flight, or >10 reports for one task; distinct = distinct case JSON",
 	Gen:  vfGenC17, Run: vfC17Run,
 }
 
